@@ -46,7 +46,12 @@ func main() {
 	if tier == "--replay" {
 		tier = "quick"
 	}
-	if pf := os.Getenv("VERIF_PPROF"); pf != "" {
+	if pf := os.Getenv("VERIF_PPROF"); pf != "" && os.Getenv("VERIF_BFS_WORKER") != "" {
+		pf = fmt.Sprintf("%s.%d", pf, os.Getpid())
+		f, _ := os.Create(pf)
+		pprof.StartCPUProfile(f)
+		go func() { time.Sleep(25 * time.Second); pprof.StopCPUProfile(); f.Close() }()
+	} else if pf != "" {
 		f, _ := os.Create(pf)
 		pprof.StartCPUProfile(f)
 		defer pprof.StopCPUProfile()
